@@ -508,6 +508,8 @@ FRAGMENTS = [
     ("constants", frag_constants, None),
 ]
 
+FRAGMENTS.append(("parser", lambda repo: __import__("harness.translate.frag_parser", fromlist=["frag_parser"]).frag_parser(repo), None))
+
 HEADER = """(** GENERATED from /repo's working tree by harness/translate/gen.py -- do not edit. *)
 From RP2V Require Import Base.Prelude Base.Time Base.Dec Model.Types.
 Open Scope Z_scope.
